@@ -30,9 +30,11 @@ def x_obligations(tier):
         o.append(Obl(_name("C07-ref", pre, n, suf), M, "ref", env=env, timeout=T, path_timeout=200, family="C07-ref",
                      bound=f"search = {pre!r} + t + {suf!r}, every token t with len(t) <= {n} (no whitespace, ':' or URL metacharacters)"))
     for pre, n, suf in ([("", 2, ""), ("h/", 1, "?a=b"), ("h/a/**/", 1, ""), ("?", 1, ""), ("bla?", 1, "=x")] if tier == "quick" else [("", 3, ""), ("h/", 2, "?a=b"), ("h/a/**/", 2, ""), ("?", 2, ""), ("h/**/", 2, "/**"), ("h/a/x?", 2, ""), ("bla?", 2, "=x"), ("h/*/*?", 1, "=s")]):
-        env = {"VF_PRE": pre, "VF_N": str(n), "VF_SUF": suf, "VF_ELIDE": "0"}
+        env = {"VF_PRE": pre, "VF_N": str(n), "VF_SUF": suf}
         o.append(Obl(_name("C07-exc", pre, n, suf), M, "exc", env=env, timeout=T, path_timeout=200, family="C07-exc",
-                     bound=f"search = {pre!r} + t + {suf!r}, EVERY str t with len(t) <= {n}; log calls not elided"))
+                     bound=f"search = {pre!r} + t + {suf!r}, EVERY str t with len(t) <= {n}; log calls dropped, their non-inert arguments still evaluated (E6)"))
+    o.append(Obl("C07-exc[''+1,log calls kept]", M, "exc", env={"VF_PRE": "", "VF_N": "1", "VF_SUF": "", "VF_ELIDE": "0"}, timeout=T, path_timeout=200, family="C07-exc",
+                 bound="search = t, every str t with len(t) <= 1; log calls NOT elided (formatting of every message executed)"))
     ship = [("hamlet/", 1, "/**"), ("hamlet/s/sq010/sh0010/anim/v001/w/ma", 1, "")]
     if tier == "thorough":
         ship += [("hamlet/s/**/movie?version=", 1, ""), ("hamlet/a/char/", 1, "/**/maya"), ("hamlet/s,", 1, "/*"), ("hamlet/*/**?ext=", 1, ""), ("hamlet/a/char/x/model/v001/", 1, "/cache")]
